@@ -21,6 +21,15 @@ Definition exn_enc (e : exn) : list Z :=
   | EUnsupported => [3; 0]
   end.
 
+(* outcome class of an encoded from_bitarray result: [0] = operand record / None / UNDEFINED, else the exception codes *)
+Definition fb_kind_of (l : list Z) : list Z :=
+  match l with
+  | 0 :: _ => [0]
+  | 2 :: 6 :: _ => [0]
+  | a :: b :: _ => [a; b]
+  | _ => l
+  end.
+
 Definition enc_Z (z : Z) : list Z := [z].
 Definition enc_unit (u : unit) : list Z := [].
 Definition enc_pair {A B} (ea : A -> list Z) (eb : B -> list Z) (p : A * B) : list Z := ea (fst p) ++ eb (snd p).
